@@ -23,15 +23,8 @@ combinations; normalize_mode maps the documented names in any case; the mode QRC
 emits (C02.R7). NOT decided: codec behaviour (which characters Shift JIS / GB2312 can represent).''')
 
 
-class Data:
-    """Byte content abstracted to what find_mode asks of it."""
-    _model = ('isdigit',)
-
-    def __init__(self, digit):
-        self.digit = digit
-
-    def isdigit(self):
-        return self.digit
+DIGITS, NOT_DIGITS = b'0123456789', b'12a'
+PROBES = (b'12\n', b'\n12', b'12 ', b' 12', b'1\r', b'', b'1.2', b'+1', b'1_2', b'\xb2', b'12\x00')     # never numeric
 
 
 @rule('C07', 'R1', 8, 'find_mode: numeric, alphanumeric, kanji in this order, else byte; never hanzi')
@@ -43,9 +36,34 @@ def r1(fx):
         for alnum in (True, False):
             for kanji in (True, False):
                 genv = encoder_env(fx.forest, it, is_alphanumeric=lambda d, a=alnum: a, is_kanji=lambda d, k=kanji: k)
-                got = FuncVal(fn, genv, it)(Data(digit))
+                got = FuncVal(fn, genv, it)(DIGITS if digit else NOT_DIGITS)
                 want = md['numeric'] if digit else md['alphanumeric'] if alnum else md['kanji'] if kanji else md['byte']
                 yield ob(f'isdigit={digit} alphanumeric={alnum} kanji={kanji}', got == want, fn, got=got, want=want)
+
+
+@rule('C07', 'R1b', 12, 'numeric detection accepts ASCII digits only: no trailing/leading line break, blank, sign or other byte')
+def r1b(fx):
+    fn = fx.fn('encoder', 'find_mode')
+    md = modes(fx)
+    it = Interp()
+    genv = encoder_env(fx.forest, it, is_alphanumeric=lambda d: False, is_kanji=lambda d: False)
+    f = FuncVal(fn, genv, it)
+    for p in PROBES:
+        got = f(p)
+        yield ob(f'find_mode({p!r}) with no other mode applicable', got == md['byte'], fn, got=got, want=md['byte'])
+    # every compiled pattern the detection functions consult ends at the very end of the string
+    used = set()
+    for q in ('find_mode', 'is_alphanumeric', 'is_kanji'):
+        for n in ast.walk(fx.fn('encoder', q)):
+            if isinstance(n, ast.Name):
+                used.add(n.id)
+    ns = ev.module_consts(fx.forest, 'encoder')
+    for name in sorted(used):
+        if ns.has(name) and isinstance(ns.get(name), ev.RePattern):
+            p = ns.get(name)
+            tree = rx.parse(p.pattern, p.flags)
+            yield ob(f'pattern {name} ends with \\Z', rx.ends_with_string_end(tree) is True, fx.forest.module_assign('encoder', name),
+                     where=f'encoder.{name}', got=p.pattern, want=r'...\Z')
 
 
 @rule('C07', 'R2', 5, 'alphanumeric pattern anchored ^...\\Z with exactly the 45 ISO characters; find_mode sees bytes')
@@ -159,6 +177,13 @@ def r4(fx):
 def r5(fx):
     for o in p01.r2(fx):
         if o.key.startswith(('kanji: group', 'hanzi: group')):
+            yield o
+
+
+@rule('C07', 'R8', 40, 'the mode indicator written into the symbol is the indicator of the segment mode, for QR and for every Micro version (C01.R4)')
+def r8(fx):
+    for o in p01.r4(fx):
+        if 'header fields' in o.key:
             yield o
 
 
